@@ -103,7 +103,7 @@ let run (f : string list) : string =
        with Bad | Failure _ -> "?")
   | "ctxq" :: expl :: repo :: ops ->
       (* model only: the side conditions of C09_failed_op_restores_partial along a script. Per operation:
-         <result> q<quiescent before> f<keeps_features> e<obs equal> Q<quiescent after>, and
+         <result> q<quiescent before> e<obs equal> Q<quiescent after>, and
          THM-VIOLATED when the theorem would be contradicted (never), NOT-PRESERVED when a successful operation
          (compiled at once, or ly_ctx_compile) of a quiescent state gives a state that is not quiescent *)
       (try
@@ -114,18 +114,17 @@ let run (f : string list) : string =
              | None -> "?op"
              | Some o ->
                  let q = quiescent !s in
-                 let kf = keeps_features r !s o in
                  let (s', res) = step r !s o in
                  let e = (obs s' = obs !s) in
                  let q' = quiescent s' in
                  let compiled_now = (expl <> "1") || o = OpCompile in
                  let flag =
-                   if q && kf && res = RErr && not e then " THM-VIOLATED"
+                   if q && res = RErr && not e then " THM-VIOLATED"
                    else if q && res = ROk && compiled_now && not q' then " NOT-PRESERVED" else "" in
                  s := s';
-                 Printf.sprintf "%s q%d f%d e%d Q%d%s"
+                 Printf.sprintf "%s q%d e%d Q%d%s"
                    (match res with ROk -> "ok" | RErr -> "E" | RNoMod -> "nomod" | RFuel -> "FUEL" | RAbort -> "ABORT")
-                   (b2i q) (b2i kf) (b2i e) (b2i q') flag) ops)
+                   (b2i q) (b2i e) (b2i q') flag) ops)
        with Bad | Failure _ -> "?")
   | ["ctxint"] -> show_internals ()
   | _ -> "?"
